@@ -145,6 +145,11 @@ type Opts struct {
 	// ExactFeeds > 0 fixes the number of feeds; RouteLen > 0 fixes the initial number of stops of every trip
 	// (stop ids S000, S001, ...) and makes the vehicle advance several stops per feed. Size-threshold sweeps.
 	ExactFeeds, RouteLen int
+	// Twins lets a history contain pairs of trips whose ids differ in the 6-digit origin prefix only by one hundredth of
+	// a minute that truncates to the same start second: two trip descriptors, one journal identity. A feed may then name
+	// one identity twice. What the journal records for such an identity is not asserted by the monitors that enable this
+	// (the statement does not say); what it records for every OTHER trip is.
+	Twins bool
 }
 
 var Stops = []string{"A", "B", "C", "D", "E", "F"}
@@ -210,6 +215,15 @@ func Gen(r *core.Rand, o Opts) *History {
 			p.assignedFrom = r.Intn(nF + 1) // possibly never
 		}
 		plans = append(plans, p)
+		if o.Twins && (origin%5 == 0 || origin%5 == 2) && r.Chance(1, 2) {
+			// (origin+1)*6/10 == origin*6/10: the twin starts in the same second
+			tw := *p
+			tw.id = fmt.Sprintf("%06d%s", origin+1, suf)
+			tw.train = p.train + "-twin"
+			tw.routeStops = append([]string(nil), p.routeStops...)
+			tw.assignedFrom = 0
+			plans = append(plans, &tw)
+		}
 	}
 	h := &History{}
 	t := uint64(1700000000)
